@@ -3,9 +3,9 @@ package main
 // C13 — StreamManager re-establishes exactly one working session after each loss.
 
 import (
-	"os"
 	"fmt"
 	"go/types"
+	"os"
 	"sort"
 	"strings"
 
@@ -619,6 +619,10 @@ func runC13(w *World, r *Report, tier string) {
 		})
 	}
 	r.Check(okRun, "R6", "xmpp.(*StreamManager).Run", w.pos(run.Pos()), "Run does not pair wg.Add(1) with Wait on success and Done on failure (found: "+seqR+")", "Add(1) ≺ connect ≺ Wait; Done on the failure return")
+
+	// ---- R8 (shared with C03.R2): the next attempt does not inherit the failed one's error
+	r.Rule("R8", "a Session reused for the next connection attempt starts clean: reading the stream features leaves s.err nil when the read succeeded (shared with C03.R2) — otherwise the attempt after a failed negotiation fails too, the session is dropped and the resumable state with it")
+	sessionErrCleared(w, r, "R8")
 
 	// ---- R7
 	n7 := 0
